@@ -25,7 +25,15 @@ checks.update({
  "C15": dict(engine="enum", text="Size neighbourhoods (0, 64 KiB buffer, segment limit, 64 MiB maximum) x segment size x batch position: accepted implies readable before and after reopen, refused implies unchanged.", ref="4/C15", note=enum_note),
  "C19": dict(engine="enum", text="Full product of source contents, batch sizes, store pairings and cancellation points through CopyLogs/CopyStable, destination compared with source.", ref="4/C19", note=enum_note),
 })
+cl_note = "Trusted base: the cluster driver (a simplified replication protocol: conflict = different term at the same index), the ground-truth comparison, raft.InmemStore, the scheduler shims. 64-bit hash collisions are excluded by the property itself."
+checks.update({
+ "C16": dict(engine="cluster", text="BFS over multi-node replication histories (batch splits, leadership changes with conflicting suffixes, restarts, truncations) on real verifier.LogStores; a report on a range the node holds and reads back exactly as the leader wrote it must not carry ErrChecksumMismatch; a node lacking part of the range must report ErrRangeMismatch.", ref="4/C16", note=cl_note),
+ "C17": dict(engine="cluster", text="For every explored history ending in delivered reports: every position x single-field mutation x {in flight, at rest}; the report must carry ErrChecksumMismatch, and blame in-flight corruption only when the node was handed different bytes.", ref="4/C17", note=cl_note),
+ "C18": dict(engine="twin+sched", text="Middleware vs twin store over all operation sequences to the depth bound (pass-through equivalence, checkpoint metadata, foreign Extensions refused, drop/skip accounting) and all schedules up to the preemption bound with a blocked ReportFn (StoreLogs never blocked; delivered + dropped = checkpoints; SkippedRange names the gap).", ref="4/C18", note=cl_note + " " + sched_note),
+})
 technique = {
+ "cluster": "explicit-state breadth-first search over cluster histories with transitions executed on the real verifier middleware",
+ "twin+sched": "bounded-exhaustive operation sequences against a twin store plus preemption-bounded exhaustive schedule exploration",
  "enum": "bounded-exhaustive enumeration of the stated input/configuration product on the real code against a reference",
  "seq": "bounded-exhaustive enumeration of operation sequences on the real code against a reference model",
  "sched": "stateless model checking: preemption-bounded exhaustive schedule exploration under a cooperative scheduler",
@@ -43,6 +51,7 @@ m = {
   {"name": "crash", "path": "harness/core/crash.go", "serves_properties": ["C01", "C02", "C03", "C04", "C08", "C13"], "kind_free_text": "explicit-state search over durable disk images with exhaustive crash-image enumeration"},
   {"name": "seq", "path": "harness/core/seq.go", "serves_properties": ["C05", "C08", "C13", "C20"], "kind_free_text": "bounded-exhaustive operation sequences vs reference model, simulated and real stacks"},
   {"name": "enum", "path": "harness/worker/codec.go, harness/worker/migrate.go", "serves_properties": ["C12", "C15", "C19"], "kind_free_text": "exhaustive product enumeration of boundary menus"},
+  {"name": "cluster", "path": "harness/core/vcluster.go, harness/core/vtwin.go", "serves_properties": ["C16", "C17", "C18"], "kind_free_text": "BFS over verifier cluster histories; twin-store sequences; blocked-ReportFn schedules"},
   {"name": "sched", "path": "harness/core/sched.go", "serves_properties": ["C06", "C14"], "kind_free_text": "cooperative scheduler + preemption-bounded DFS over rewritten sources"},
  ],
  "checks": [],
